@@ -1,0 +1,86 @@
+//go:build verif
+
+package cdi
+
+import (
+	"fmt"
+	"os"
+	"sync"
+	"time"
+
+	"tags.cncf.io/container-device-interface/internal/validation/k8s"
+)
+
+// Instrumentation for external verification harnesses. Only compiled in
+// with the "verif" build tag.
+
+var verifLogLock sync.Mutex
+
+// verifPoint marks a named point in the code. Depending on the environment
+// the process exits or pauses when the point is reached:
+//
+//	VERIF_CRASH_AT=<name>  exit immediately with status 77
+//	VERIF_PAUSE_AT=<name>  create $VERIF_PAUSE_FILE.reached, then wait
+//	                       until $VERIF_PAUSE_FILE.go exists
+func verifPoint(name string) {
+	if at := os.Getenv("VERIF_CRASH_AT"); at != "" && at == name {
+		os.Exit(77)
+	}
+	if at := os.Getenv("VERIF_PAUSE_AT"); at != "" && at == name {
+		file := os.Getenv("VERIF_PAUSE_FILE")
+		if file == "" {
+			return
+		}
+		_ = os.WriteFile(file+".reached", []byte(name), 0o644)
+		for {
+			if _, err := os.Stat(file + ".go"); err == nil {
+				return
+			}
+			time.Sleep(time.Millisecond)
+		}
+	}
+}
+
+// verifEvent logs an fsnotify event seen by the watcher goroutine and
+// whether it passed the event filter, to the file $VERIF_EVENT_LOG.
+func verifEvent(op, name string, accepted bool) {
+	log := os.Getenv("VERIF_EVENT_LOG")
+	if log == "" {
+		return
+	}
+	verifLogLock.Lock()
+	defer verifLogLock.Unlock()
+	f, err := os.OpenFile(log, os.O_APPEND|os.O_CREATE|os.O_WRONLY, 0o644)
+	if err != nil {
+		return
+	}
+	defer f.Close()
+	fmt.Fprintf(f, "%s\t%q\t%v\n", op, name, accepted)
+}
+
+// VerifK8sQualifiedName exposes the internal Kubernetes qualified name check.
+func VerifK8sQualifiedName(value string) []string {
+	return k8s.IsQualifiedName(value)
+}
+
+// VerifValidateAnnotations exposes the internal annotation validation.
+func VerifValidateAnnotations(annotations map[string]string) error {
+	return k8s.ValidateAnnotations(annotations, "annotations")
+}
+
+// VerifScanSpecDirs exposes scanSpecDirs.
+func VerifScanSpecDirs(dirs []string, fn func(path string, priority int, spec *Spec, err error) error) error {
+	return scanSpecDirs(dirs, fn)
+}
+
+// VerifTracked returns a copy of the watch's tracked directories and
+// whether the cache has an fsnotify watcher.
+func VerifTracked(c *Cache) (map[string]bool, bool) {
+	c.Lock()
+	defer c.Unlock()
+	tracked := map[string]bool{}
+	for dir, ok := range c.watch.tracked {
+		tracked[dir] = ok
+	}
+	return tracked, c.watch.watcher != nil
+}
